@@ -490,6 +490,10 @@ def main(seed, tier, a):
     except HarnessError as e:
         print("HARNESS-ERROR %s" % str(e)[:2000])
         rc = 2
+    except Exception:
+        import traceback
+        print("HARNESS-ERROR unexpected exception in the harness itself:\n%s" % traceback.format_exc()[-2000:])
+        rc = 2
     sys.stdout.flush()
     sys.exit(rc)
 
@@ -571,7 +575,7 @@ def _run(seed, tier, a, t0, evidence_path):
                     anomalies.append({"what": "pipeline", "tag": tag, "pipeline": p, "result": {k: v for k, v in res.items() if k != "text"}})
                 else:
                     name = "out/%s/%d" % (p["writer"], len(stored))
-                    if len(res["text"]) <= (3000 if quick else 6000):
+                    if 0 < len(res["text"]) <= (3000 if quick else 6000):
                         stored[name] = res["text"]
                 if len(samples) < 2:
                     samples.append({"pipeline": {"writer": p["writer"], "ctor": p["ctor"], "languages": [l["lang"] for l in p["recipe"]["langs"]]},
@@ -632,6 +636,8 @@ def _run(seed, tier, a, t0, evidence_path):
                 x = rng.choice(pool_names)
                 d[x] = alldocs[x]
                 la = len(alldocs[x])
+                if la == 0:
+                    continue
                 r = rng.random()
                 # bias corruption to the head of the document, where every sniffer but DFXP/SAMI/WebVTT looks
                 pos = rng.randrange(0, min(la, 40)) if rng.random() < 0.6 else rng.randrange(0, la)
